@@ -60,3 +60,93 @@ def run(ctx, files, broken, info=None, results=None):
                               % (cid, cols, nf, nparam, mp, mf, ml), {"file": info[cid][3]})
     ctx.obligation("tie:npd_header_model", bad == 0 and len(blocks) == len(rows), "%d of %d differ" % (bad, len(rows)))
     ctx.extra["npd_header_cases"] = len(rows)
+
+
+# ----------------------------------------------------------------------------------------------------------------
+# RI / MA / DB (Files/TsFormat.v convert_value_pair, extracted, against the compiled function and the ground truth)
+# ----------------------------------------------------------------------------------------------------------------
+def _hexf(x):
+    return float(x).hex()
+
+
+def _parse_v(line):
+    t = line.split()
+    if len(t) != 3 or t[0] != "V":
+        return None
+    return complex(float.fromhex(t[1]) if "x" in t[1] else float(t[1]), float.fromhex(t[2]) if "x" in t[2] else float(t[2]))
+
+
+def format_pairs(rng, n):
+    """(truth, ri, ma, db): one complex number and its three spellings; magnitudes 1e-4 .. 1e4 (the conditioning filter:
+    inside it cexp / log10 lose at most a few ulp), every quadrant, the axes, angles beyond +-180 degrees."""
+    import cmath
+    import math
+    out = []
+    for k in range(n):
+        mag = 10.0 ** rng.uniform(-4, 4) if k % 7 else rng.choice([1.0, 10.0, 0.1, 2.0, 100.0])
+        ang = rng.uniform(-180, 180) if k % 5 else rng.choice([0.0, 90.0, -90.0, 180.0, -180.0, 45.0, 270.0, -450.0, 360.0])
+        z = cmath.rect(mag, math.radians(ang))
+        out.append((z, (z.real, z.imag), (mag, ang), (20.0 * math.log10(mag), ang)))
+    return out
+
+
+def format_tie(ctx, H):
+    import vplib
+    rng = ctx.rng
+    try:
+        drv = ctx.ocaml_driver("drv_tsfmt")
+        exe = ctx.build_harness("tstone_fmt", san=True, exclude=("vnadata_load_touchstone.c",))
+    except Exception as e:                                  # pragma: no cover
+        ctx.obligation("tie:format_model", False, "cannot build: %s" % str(e)[-300:])
+        ctx.unproved("tie:format_model", "driver / harness does not build: %s" % str(e)[-300:], "nothing was compared")
+        return
+    n = 400 if ctx.tier == "quick" else 4000
+    trip = format_pairs(rng, n)
+    cmds = []
+    for z, ri, ma, db in trip:
+        cmds += ["conv RI %s %s" % (_hexf(ri[0]), _hexf(ri[1])), "conv MA %s %s" % (_hexf(ma[0]), _hexf(ma[1])),
+                 "conv DB %s %s" % (_hexf(db[0]), _hexf(db[1]))]
+    # pairs that are not spellings of one number: the case splits of the function itself (sign of dB, zero magnitude, ...)
+    extra = []
+    for _ in range(n // 2):
+        f = rng.choice(["RI", "MA", "DB"])
+        a = rng.choice([0.0, -0.0, 1.0, -1.0, rng.uniform(-60, 60), rng.uniform(-1e3, 1e3)])
+        b = rng.choice([0.0, 180.0, -180.0, rng.uniform(-720, 720)])
+        extra.append("conv %s %s %s" % (f, _hexf(a), _hexf(b)))
+    allc = cmds + extra
+    rc1, out1, err1 = vplib.sh([exe], input="\n".join(allc) + "\n", timeout=300, env=ctx.run_env(leak=True))
+    rc2, out2, err2 = vplib.sh([drv], input="\n".join(allc) + "\n", timeout=300)
+    cl, ml = out1.split("\n")[:len(allc)], out2.split("\n")[:len(allc)]
+    if rc1 != 0 or rc2 != 0 or len([x for x in cl if x]) != len(allc) or len([x for x in ml if x]) != len(allc):
+        sig = vplib.asan_signature(err1) or {"kind": "fault", "error": "rc %s/%s" % (rc1, rc2), "function": "convert_value_pair"}
+        ctx.violation(sig, "convert_value_pair harness or model driver failed: %s %s" % (err1[-300:], err2[-300:]), {"commands": allc[:20]})
+        ctx.obligation("tie:format_model", False, "harness rc %s, driver rc %s" % (rc1, rc2))
+        return
+    bad_model = bad_equiv = 0
+    TOLM = 1e-13          # compiled function vs extracted model on the same binary64 inputs (libm's cexp vs exp/cos/sin)
+    TOLE = 5e-12          # three spellings of one number vs each other and vs the ground truth
+    for i, cmd in enumerate(allc):
+        c, m = _parse_v(cl[i]), _parse_v(ml[i])
+        ctx.traces_validated += 1
+        ok = c is not None and m is not None and (abs(c - m) <= TOLM * max(abs(c), abs(m)) or (c != c and m != m))
+        if not ok:
+            bad_model += 1
+            if bad_model <= 2:
+                ctx.violation({"kind": "disagreement", "op": "convert_value_pair", "class": "model_vs_c"},
+                              "convert_value_pair and its model (Files/TsFormat.v, binary64 instance) disagree on '%s': C %r, model %r"
+                              % (cmd, c, m), {"command": cmd, "c": cl[i], "model": ml[i]})
+    for k, (z, ri, ma, db) in enumerate(trip):
+        vals = [_parse_v(cl[3 * k + j]) for j in range(3)]
+        ctx.count(("fmt", k))
+        if any(v is None for v in vals):
+            continue
+        dev = max(abs(v - z) for v in vals)
+        if not dev <= TOLE * abs(z):
+            bad_equiv += 1
+            if bad_equiv <= 2:
+                ctx.violation({"kind": "spelling_changes_data", "class": "format", "filetype": "ts"},
+                              "RI %r, MA %r and DB %r spell %r but convert_value_pair gives %r" % (ri, ma, db, z, vals),
+                              {"ri": ri, "ma": ma, "db": db, "truth": repr(z), "c": [cl[3 * k + j] for j in range(3)]})
+    ctx.obligation("tie:format_model", bad_model == 0, "%d of %d conversions differ from the model" % (bad_model, len(allc)))
+    ctx.obligation("tie:format_equiv", bad_equiv == 0, "%d of %d triples convert differently" % (bad_equiv, len(trip)))
+    ctx.extra["format_conversions"] = len(allc)
